@@ -98,6 +98,13 @@ def make_runs(chk):
                 add(script, [b"\x05"] if script == bytes([O["ADD"]]) else [], STANDARD, False, mode, [], {})
                 runs[-1]["term"] = term
                 if text is not None: runs[-1]["text"] = text
+    # several scripts in one run: a P2SH scriptPubKey given directly with its redeem script as stack item (the redeem script runs afterwards)
+    for nops, tail in ((1, b"\x51"), (25, b"\x51"), (60, b"\x51"), (25, b"\x00"), (40, bytes([O["RETURN"]])), (30, bytes([O["1"], O["VERIFY"]]))):
+        redeem = bytes([O["NOP"]]) * nops + tail
+        spk_ = bytes([O["HASH160"]]) + G.push(gen_limits.hash160(redeem)) + bytes([O["EQUAL"]])
+        for mode in modes[:2]:
+            add(spk_, [redeem], ["P2SH"], False, mode, [], {})
+            add(spk_, [b"\x07", redeem], STANDARD, False, mode, ["-q"], {})
     for script, stack in exc:
         for mode in modes:
             for opts in ([], ["-q"], ["--debug=sighash,signing"]):
